@@ -1227,6 +1227,123 @@ theorem ReachableFrom.linv {g : Graph} (hsep : LocsSeparated g) {ncls : Nat} {st
   | init => exact LInv.init g ncls store H
   | step s w out fuel _ _ _ ih => exact (resume_L hsep s w out fuel ih).1
 
+/-! ### the entry determines its tokens -/
+
+/-- a blank-free head followed by nothing or by a blank: the head is determined -/
+theorem blank_split_unique (a a' X X' : List Char) (ha : ' ' ∉ a) (ha' : ' ' ∉ a')
+    (hX : X = [] ∨ ∃ r, X = ' ' :: r) (hX' : X' = [] ∨ ∃ r, X' = ' ' :: r) (h : a ++ X = a' ++ X') : a = a' ∧ X = X' := by
+  induction a generalizing a' with
+  | nil =>
+    cases a' with
+    | nil => exact ⟨rfl, h⟩
+    | cons c r =>
+      exfalso
+      simp only [List.nil_append, List.cons_append] at h
+      rcases hX with hX | ⟨r', hX⟩
+      · rw [hX] at h; cases h
+      · rw [hX] at h
+        injection h with h1 _
+        exact ha' (by rw [← h1]; exact List.mem_cons_self)
+  | cons c r ih =>
+    cases a' with
+    | nil =>
+      exfalso
+      simp only [List.nil_append, List.cons_append] at h
+      rcases hX' with hX' | ⟨r', hX'⟩
+      · rw [hX'] at h; cases h
+      · rw [hX'] at h
+        injection h with h1 _
+        exact ha (by rw [h1]; exact List.mem_cons_self)
+    | cons c' r' =>
+      simp only [List.cons_append] at h
+      injection h with h1 h2
+      obtain ⟨h3, h4⟩ := ih r' (fun hm => ha (List.mem_cons_of_mem _ hm)) (fun hm => ha' (List.mem_cons_of_mem _ hm)) h2
+      exact ⟨by rw [h1, h3], h4⟩
+
+theorem blankTail_shape (R : List (List Char)) :
+    R.flatMap (fun t => ' ' :: t) = [] ∨ ∃ r, R.flatMap (fun t => ' ' :: t) = ' ' :: r := by
+  cases R with
+  | nil => exact Or.inl rfl
+  | cons t r => exact Or.inr ⟨t ++ r.flatMap (fun t => ' ' :: t), by simp [List.flatMap_cons]⟩
+
+theorem blankTail_inj (R R' : List (List Char)) (hR : ∀ t ∈ R, ' ' ∉ t) (hR' : ∀ t ∈ R', ' ' ∉ t)
+    (h : R.flatMap (fun t => ' ' :: t) = R'.flatMap (fun t => ' ' :: t)) : R = R' := by
+  induction R generalizing R' with
+  | nil =>
+    cases R' with
+    | nil => rfl
+    | cons t r => simp [List.flatMap_cons] at h
+  | cons t r ih =>
+    cases R' with
+    | nil => simp [List.flatMap_cons] at h
+    | cons t' r' =>
+      simp only [List.flatMap_cons, List.cons_append, List.cons.injEq, true_and] at h
+      obtain ⟨h1, h2⟩ := blank_split_unique t t' _ _ (hR t List.mem_cons_self) (hR' t' List.mem_cons_self)
+        (blankTail_shape r) (blankTail_shape r') h
+      rw [h1, ih r' (fun x hx => hR x (List.mem_cons_of_mem _ hx)) (fun x hx => hR' x (List.mem_cons_of_mem _ hx)) h2]
+
+theorem map_toList_inj : ∀ (r r' : List String), r.map String.toList = r'.map String.toList → r = r'
+  | [], [], _ => rfl
+  | [], _ :: _, h => by simp at h
+  | _ :: _, [], h => by simp at h
+  | a :: r, a' :: r', h => by
+    simp only [List.map_cons, List.cons.injEq] at h
+    rw [String.toList_inj.mp h.1, map_toList_inj r r' h.2]
+
+theorem toList_foldl_joinStep (L : List String) (acc : String) (hacc : acc ≠ "") :
+    (L.foldl joinStep acc).toList = acc.toList ++ (L.map String.toList).flatMap (fun t => ' ' :: t) := by
+  induction L generalizing acc with
+  | nil => simp
+  | cons l r ih =>
+    simp only [List.foldl_cons, List.map_cons, List.flatMap_cons]
+    have hs : joinStep acc l = acc ++ " " ++ l := by
+      unfold joinStep
+      have : (acc == "") = false := by simpa using hacc
+      simp [this]
+    rw [hs, ih _ (append_blank_ne_empty acc l)]
+    simp [String.toList_append]
+
+/-- **the entry determines its tokens**: on blank-free non-empty tokens `joinLocs` is injective -/
+theorem joinLocs_inj (L L' : List String) (hL : ∀ l ∈ L, ' ' ∉ l.toList ∧ l ≠ "") (hL' : ∀ l ∈ L', ' ' ∉ l.toList ∧ l ≠ "")
+    (h : joinLocs L = joinLocs L') : L = L' := by
+  cases L with
+  | nil =>
+    cases L' with
+    | nil => rfl
+    | cons a r => exact absurd h.symm (joinLocs_ne_empty _ (fun l hl => (hL' l hl).2) (by simp))
+  | cons a r =>
+    cases L' with
+    | nil => exact absurd h (joinLocs_ne_empty _ (fun l hl => (hL l hl).2) (by simp))
+    | cons a' r' =>
+      have e1 : joinLocs (a :: r) = r.foldl joinStep a := rfl
+      have e2 : joinLocs (a' :: r') = r'.foldl joinStep a' := rfl
+      rw [e1, e2] at h
+      have h' := congrArg String.toList h
+      rw [toList_foldl_joinStep r a (hL a List.mem_cons_self).2,
+        toList_foldl_joinStep r' a' (hL' a' List.mem_cons_self).2] at h'
+      obtain ⟨h1, h2⟩ := blank_split_unique _ _ _ _ (hL a List.mem_cons_self).1 (hL' a' List.mem_cons_self).1
+        (blankTail_shape _) (blankTail_shape _) h'
+      have h3 := blankTail_inj _ _
+        (fun t ht => by obtain ⟨l, hl, rfl⟩ := List.mem_map.mp ht; exact (hL l (List.mem_cons_of_mem _ hl)).1)
+        (fun t ht => by obtain ⟨l, hl, rfl⟩ := List.mem_map.mp ht; exact (hL' l (List.mem_cons_of_mem _ hl)).1) h2
+      have h4 : r = r' := map_toList_inj r r' h3
+      rw [String.toList_inj.mp h1, h4]
+
+/-- the token list of an entry is unique -/
+theorem TokAt.unique {U : List String} (hU : Sep U) {cur : List (String × String)} {vm : String} {L L' : List String}
+    (h : TokAt U cur vm L) (h' : TokAt U cur vm L') : L = L' := by
+  have he := h.entry.symm.trans h'.entry
+  unfold enc at he
+  by_cases hL : L = []
+  · by_cases hL' : L' = []
+    · rw [hL, hL']
+    · simp [hL, hL'] at he
+  · by_cases hL' : L' = []
+    · simp [hL, hL'] at he
+    · simp only [hL, hL', if_false, Option.some.injEq] at he
+      exact joinLocs_inj L L' (fun l hl => ⟨hU.blank l (h.sub l hl), hU.ne l (h.sub l hl)⟩)
+        (fun l hl => ⟨hU.blank l (h'.sub l hl), hU.ne l (h'.sub l hl)⟩) he
+
 /-- on a pre-parsed graph nothing is ever hidden: the visible graph is the graph -/
 theorem vis_of_hidden_nil (g : Graph) (s : State) (h : ∀ x ∈ s.hidden, x ∈ ([] : List Nat)) : vis g s = g := by
   have : s.hidden = [] := by
